@@ -611,6 +611,12 @@ func (c *Ctx) branches(ia *interpAnchors, reg *registry) {
 	for _, w := range []want{{"if", 2, 1, 0}, {"ifelse", 3, 2, 1}} {
 		f := reg.op("systemdict", w.op)
 		fname := c.fname(f)
+		// decided on the evaluator (ext_w1.go): the operator is evaluated for both values of the
+		// boolean operand; the shape of the branch is looked at only if the evaluation stops
+		if bad, decided := c.branchByEvaluation(f, w.op); decided {
+			c.check(len(bad) == 0, "CTL-BRANCH", fname, w.op+": exactly one branch, chosen by the boolean operand", f.Pos(), "evaluated for true and false: which operand is run, with which flag, on which operand stack, and what is returned", w.op+" does not run exactly the prescribed branch: "+joinMax(bad, 3))
+			continue
+		}
 		calls := staticCalls(f, ia.executeOne)
 		okAll := true
 		why := ""
